@@ -1382,7 +1382,12 @@ class FuncEscapePattern(ValueFunc):
         if args.isNull("s"):
             return NULL
         value = args.getString("s").value
-        return ValueString(value.replace("|", "\\|").replace(".", "\\."))
+        result = ""
+        for ch in value:
+            if ch in "\\.^$*+?{}[]|()":
+                result += "\\"
+            result += ch
+        return ValueString(result)
 
 
 class FuncEval(ValueFunc):
